@@ -114,6 +114,12 @@ def _build_c14(inputs, chain):
         if bytes(other.pub) == bytes(key.pub):
             return {'address': ref_address(key.pub, chain), 'message': msg, 'sig': sig, 'expect': True}
         return {'address': ref_address(other.pub, chain), 'message': msg, 'sig': sig, 'expect': False}
+    if mode == 'p2sh_same_hash':
+        # the P2SH address carrying the same 20 bytes is a different address
+        return {'address': _b58check(bytes([CHAINS[chain]['SCRIPT_ADDR']]) + ec.hash160(key.pub)), 'message': msg, 'sig': sig,
+                'expect': False}
+    if mode == 'garbage':
+        return {'address': inputs['text2'] + 'notanaddress', 'message': msg, 'sig': sig, 'expect': False}
     if mode == 'othercompression':
         alt = ec.encode_point(ec.decode_point(key.pub), not key.is_compressed)
         return {'address': ref_address(alt, chain), 'message': msg, 'sig': sig, 'expect': False}
@@ -141,7 +147,7 @@ _replay.GENERATORS.update({
                                              'compressed': rng.random() < 0.5, 'text': rng.choice(_TEXTS)},
     'verify_rejects_others': lambda rng: (lambda t: {'__build__': 'c14', '__kind__': 'verify', 'secret': _bj(_secret(rng)),
                                                      'compressed': rng.random() < 0.5, 'text': t,
-                                                     'mode': rng.choice(['same', 'otherkey', 'othercompression', 'othermsg', 'othermsg']),
+                                                     'mode': rng.choice(['same', 'otherkey', 'othercompression', 'othermsg', 'othermsg', 'p2sh_same_hash', 'garbage']),
                                                      'secret2': _bj(_secret(rng)), 'compressed2': rng.random() < 0.5,
                                                      'text2': _perturb(rng, t)})(rng.choice(_TEXTS)),
 })
